@@ -10,6 +10,7 @@ argument: coercing, rejecting, failing at the k-th call, non-idempotent).
 -/
 import TraitsVerif.Lemmas.MapStep
 import TraitsVerif.Generated.Mutators
+import TraitsVerif.Generated.DictEvent
 namespace TraitsVerif.Props.C06
 open TraitsVerif TraitsVerif.Py TraitsVerif.Model
 open TraitsVerif.Py.Dict (get? contains set erase update ofPairs Op Ret WF)
@@ -221,6 +222,42 @@ theorem C06_every_notifier (kv : Callback K K) (vv : Callback V V) (d : Dict K V
   obtain ⟨hr, hw, _⟩ := (step_event hwf h).2.1 t he
   exact notifyAll_faithful hr hw ns
 
+/-- **C06_factory_source.**  The statement sequence of `dict_event_factory` read
+from the working tree (`translate/dictevent.py`) is the program the model
+interprets: both `removed` and `added` are rebound to copies before they are
+written. -/
+theorem C06_factory_source :
+    Generated.dictEventFactoryBody = factoryBody.map FStmt.name ∧
+    Generated.dictEventFactoryParams = ["trait_dict", "removed", "added", "changed"] := by decide
+
+/-- **C06_every_notifier** for the factory *as a program with explicit aliasing*
+(`notifyAllProg factoryBody`: a write through a name that still refers to the
+argument object is seen by the notifiers called later). -/
+theorem C06_every_notifier_prog (kv : Callback K K) (vv : Callback V V) (d : Dict K V) (hwf : WF d)
+    (op : Op K V) (o : DOut K V) (t : Triple K V) (ns : List NotifierKind)
+    (h : TraitDict.step kv vv d op = .ok o) (he : o.event = some t) :
+    (notifyAllProg factoryBody o.items ns t).length = ns.length ∧
+    ∀ s ∈ notifyAllProg factoryBody o.items ns t, s.Faithful d o.items := by
+  rw [notifyAllProg_body]
+  exact C06_every_notifier kv vv d hwf op o t ns h he
+
+/-- **Negation witness (F7, fixed by 98152b1).**  With the body as it was before
+the fix (`added` written without `added = added.copy()`), `d['a'] = 2` on
+`{'a': 1}` observed by `[observer, raw]` hands the raw notifier
+`added = {'a': 2}` together with `changed = {'a': 1}`, which is not a faithful
+delta: the copy is what makes `C06_every_notifier` true. -/
+theorem C06_every_notifier_needs_added_copy :
+    notifyAllProg factoryBodyPreFix [(Atom.str 1, Atom.int 2)] [.observer, .raw]
+        ⟨[], [], [(Atom.str 1, Atom.int 1)]⟩ =
+      [.event ⟨[(.str 1, .int 1)], [(.str 1, .int 2)]⟩,
+       .raw ⟨[], [(.str 1, .int 2)], [(.str 1, .int 1)]⟩] ∧
+    ¬ (Seen.raw ⟨[], [(Atom.str 1, Atom.int 2)], [(Atom.str 1, Atom.int 1)]⟩ : Seen Atom Atom).Faithful
+        [(Atom.str 1, Atom.int 1)] [(Atom.str 1, Atom.int 2)] := by
+  refine ⟨by decide, ?_⟩
+  intro h
+  have := (h.added_new (Atom.str 1) (Atom.int 2) (by decide)).1
+  exact absurd this (by decide)
+
 /-- Non-vacuity of the event theorems: an overwrite observed by
 `[observer, raw, observer]`; the raw notifier placed after an observer still
 sees `added = {}`. -/
@@ -304,6 +341,25 @@ theorem C06_history_refines (kv : Callback K K) (vv : Callback V V) (ops : List 
     cases hs : TraitDict.step kv vv d op with
     | error e => simp only [hs] at hyp2; exact congrArg (List.cons _) (ih _ hyp2)
     | ok o => simp only [hs] at hyp2; exact congrArg (List.cons _) (ih _ hyp2)
+
+/-- Non-vacuity of `C06_history_refines`: a history with a coercing key
+validator, duplicate keys and two `setdefault`s whose hypothesis holds at each
+step, and the history it yields. -/
+example :
+    AlongRun tostr tostr (SetdefaultHyp tostr) [(Atom.str 1, Atom.str 2)]
+      [.setdefault (.str 1) (.int 0), .update [(.int 3, .int 4), (.str 3, .int 5)],
+       .setdefault (.int 7) (.int 8), .popitem, .delitem (.int 3)] ∧
+    (TraitDict.run tostr tostr [(Atom.str 1, Atom.str 2)]
+      [.setdefault (.str 1) (.int 0), .update [(.int 3, .int 4), (.str 3, .int 5)],
+       .setdefault (.int 7) (.int 8), .popitem, .delitem (.int 3)]).map (·.map DOut.proj) =
+      [.ok ([(.str 1, .str 2)], .val (.str 2)),
+       .ok ([(.str 1, .str 2), (.str 3, .str 5)], .none),
+       .ok ([(.str 1, .str 2), (.str 3, .str 5), (.str 7, .str 8)], .val (.str 8)),
+       .ok ([(.str 1, .str 2), (.str 3, .str 5)], .pair (.str 7) (.str 8)),
+       .error .keyError] := by
+  refine ⟨⟨?_, trivial, ?_, trivial, trivial, trivial⟩, by decide⟩
+  · intro k' hk; cases hk; decide
+  · intro k' hk; cases hk; decide
 
 /-- Histories without `setdefault` need no hypothesis at all. -/
 theorem C06_history_refines_unconditional (kv : Callback K K) (vv : Callback V V) (ops : List (Op K V))
